@@ -539,7 +539,9 @@ impl World {
         match (r.t, r.qos) {
             (3, 1) => P5::PubAck(ack),
             (3, _) => P5::PubRec(ack),
-            (6, _) => P5::PubComp(s5::Ack5 { reason: 0, ..ack }),
+            // (v5, varied contents: every other PUBCOMP says "packet identifier not found", a valid answer to a PUBREL that
+            // completes the exchange all the same)
+            (6, _) => P5::PubComp(s5::Ack5 { reason: if self.flavor && v5 && (usize::from(r.id) + r.pos) % 2 == 1 { 0x92 } else { 0 }, ..ack }),
             (8, _) => P5::SubAck(s5::SubAck5 { pid: r.id, codes, reason_string: ack.reason_string, user_props: ack.user_props }),
             _ => P5::UnsubAck(s5::SubAck5 {
                 pid: r.id,
@@ -878,6 +880,13 @@ impl World {
         }
         if what % 8 == 7 {
             return self.eut.encode(&P5::PubRel(s5::Ack5 { pid: self.inbound_qos2, ..Default::default() }), &[]);
+        }
+        if what == 16 {
+            // a QoS 2 PUBLISH of the peer that carries the packet id of the newest outbound publish (ids of the two directions
+            // are independent)
+            let id = self.requests.iter().rev().find(|r| r.t == 3 && r.id != 0).map_or(1, |r| r.id);
+            self.inbound_qos2 = id;
+            return self.eut.encode(&P5::Publish(Box::new(s5::Publish5 { topic: "in/2".into(), qos: 2, pid: Some(id), payload_len: 2, ..Default::default() })), &[7, 7]);
         }
         self.inbound_id += 1;
         let id = self.inbound_id;
